@@ -3,7 +3,9 @@ from vf.core import Suite, coq_list, coq_bool
 from vf.gen import pick_weighted
 
 ID = "C24"
-THEOREMS = ["C24_placeholder"]
+THEOREMS = ["C24_pinned_open", "C24_refs_exact", "C24_lru_wf", "C24_bound_refuted", "C24_bound_partial",
+            "C24_bound_quiescent", "C24_close_final", "C24_idle_armed", "C24_idle_fire_closes",
+            "C24_idle_pooled_reachable", "C24_grace_respected", "C24_exec_sound"]
 MODEL_FILES = ["SharedFile.v"]
 MODELLED = ("internal/sharedfile/sharedfile.go: Acquire, Release, ReleaseNow, Close, Pinned and the grace-timer callback; "
             "x/fdpool/pool.go: Touch (hit / insert / two-pass victim choice / unlocked ReleaseNow / re-lock) and Forget "
